@@ -304,7 +304,13 @@ def host_no_op_cast(g):
 @register("no_op_expand_rule")
 def host_expand(g):
     dt = g.pick(SHAPE_DTYPES + (I64,))
-    shape = _shape(g, [0, 1, 1, 2, 2, 3, 4], zero=1)
+    variant = g.pick(["equal", "equal", "equal", "equal", "ones_where_d", "lead1", "lead_big", "shorter", "prefix", "prefix", "reversed", "grow", "all_ones", "empty", "dynamic_equal"])
+    if variant in ("prefix", "reversed"):
+        shape = _shape(g, [2, 2, 3], zero=0)  # (rank >= 2 by construction: left- and right-alignment differ only there)
+        if variant == "prefix" and g.chance(6):
+            shape = shape[:-1] + (1,)  # (the trailing dim is what the lower-rank target meets first)
+    else:
+        shape = _shape(g, [0, 1, 1, 2, 2, 3, 4], zero=1)
     src = g.pick(["input", "input", "input", "const", "node"])
     if src == "const":
         from vf.modelgen import make_array
@@ -316,7 +322,6 @@ def host_expand(g):
         if src == "node":
             x = _via_node(g, x)
     r = len(shape)
-    variant = g.pick(["equal", "equal", "equal", "equal", "ones_where_d", "lead1", "lead_big", "shorter", "grow", "all_ones", "empty", "dynamic_equal"])
     tgt = list(shape)
     if variant == "ones_where_d":
         tgt = [1 if g.chance(5) else d for d in shape]
@@ -326,6 +331,12 @@ def host_expand(g):
         tgt = [g.pick([2, 3])] + list(shape)
     elif variant == "shorter":
         tgt = list(shape[g.pick([1, 1, 2]):]) if r else []
+    elif variant == "prefix":
+        # the LEADING dims of the input as a lower-rank target: Expand aligns from the right, so this is not the input's own shape
+        # (x[3,1] expanded to [3] is [3,3]); combinations that do not broadcast are dropped by emit()
+        tgt = list(shape[:r - g.pick([1, 1, 2])]) if r else []
+    elif variant == "reversed":
+        tgt = list(shape[::-1])
     elif variant == "grow":
         tgt = [g.pick([2, 3]) if d == 1 else d for d in shape]
     elif variant == "all_ones":
